@@ -79,6 +79,30 @@ pub enum Event {
     GcFree { addr: usize },
     GcEnd { objects: usize, allocated: usize, live_bytes: Option<usize> },
     Clear { allocated: usize },
+    /// the value stack (bottom first) as the instruction of the preceding `Instr` event finds it;
+    /// only when `values` is on
+    Stack(Vec<StackVal>),
+}
+
+/// a value of the value stack: scalars by value (reals by their bits), objects by address
+#[derive(Debug, Clone, Copy, PartialEq)]
+pub enum StackVal {
+    Nil,
+    Int(i64),
+    Real(u64),
+    Obj(usize),
+}
+
+impl From<crate::value::Value> for StackVal {
+    fn from(v: crate::value::Value) -> Self {
+        use crate::value::Value;
+        match v {
+            Value::Nil => StackVal::Nil,
+            Value::Integer(i) => StackVal::Int(i),
+            Value::Real(r) => StackVal::Real(r.to_bits()),
+            Value::Object(o) => StackVal::Obj(o.as_ptr() as usize),
+        }
+    }
 }
 
 #[derive(Debug, Clone, PartialEq, Default)]
@@ -108,6 +132,8 @@ pub struct Hooks {
     pub snapshots: bool,
     /// true while a collection is sweeping
     pub in_gc: bool,
+    /// record a Stack event after every Instr event
+    pub values: bool,
 }
 
 thread_local! {
@@ -138,6 +164,10 @@ pub(crate) fn emit(f: impl FnOnce() -> Event) {
             }
         });
     }
+}
+
+pub(crate) fn values_on() -> bool {
+    HOOKS.with(|h| h.try_borrow().map(|h| h.record && h.values).unwrap_or(false))
 }
 
 /// called by the allocator for every allocation request; true = start a collection now
